@@ -822,7 +822,7 @@ func init() {
 			"improper lists, a 4000-deep list, strings with invalid UTF-8 and NUL, closed streams and channel, symbols with the prefix of an unknown package, (values)); " +
 			"thorough: exhaustive; quick: all 0/1-tuples, all pairs of a 20-object pool, seeded samples of the rest; every 1-tuple also with the form evaluated twice " +
 			"(destructive functions on their own literal); every 3-tuple of a 14-object pool for functions that accept 3 arguments; every documented &key with every " +
-			"pool value, and with the value missing, the key duplicated, a non-keyword or unknown keyword in key position; seeded 4..5-tuples; (2) 1 300 hostile " +
+			"pool value, and with the value missing, the key duplicated, a non-keyword or unknown keyword in key position; seeded 4..5-tuples; (2) 750 hostile " +
 			"program texts read and evaluated plainly and through Code.Compile: misuse of every special form and definer, dotted forms, quasi-quote misuse, reader " +
 			"labels, unknown package prefixes, destructive functions on literals in loops, 2 000..10 000-deep nested programs, unbounded recursion; (3) format: " +
 			"every directive x modifier x parameter shape x pool argument, block/unbalanced templates, seeded compositions (only: no host fault); (4) reader: every " +
